@@ -1384,7 +1384,7 @@ func main() {
 		ID: "C14",
 		Rule: "seeded histories of 40 (thorough 60) operations — update / delete (exact, subtree, wildcard) / multi-update+delete / empty / Sync / Connect / ConnectError / Reset / Remove / Add / UpdateMetadata — over 2-4 targets that share one set of 3, 5 or 9 leaf paths (prefix elements, keyed element, root leaf, origin, deprecated encoding), timestamps around a virtual clock (stale, equal, newer, beyond a future threshold), event-driven emulation on/off, " +
 			"up to 5 STREAM subscribers (one target or \"*\", 6 path shapes) attached at seeded points through subscribe.Server over in-memory streams. After every operation addressed to X every other target's existence, leaves (wire bytes of the stored notifications) and Metadata() values are compared with the state before it, the feed entries of the call must name X only, and Query(\"*\") must equal the union of the per-target queries. " +
-			"Mode concurrent (400 trials quick, 8000 thorough): 2-4 pre-filled targets (3 roots x 60-500 leaves, identical paths), Remove(X) or Reset(X) fired in the middle of a lead subscriber's initial walk (bounded hold at a schedule point), while its peer is stalled on its first response (Send gate), while the feed consumer is slow right after a Reset announcement, or at a seeded moment; single-target X STREAM (2-3 paths), '*' STREAM, '*' ONCE and other-target STREAM subscribers attached before / while / after; each judged trial is distinct by its sequence of schedule points reached. " +
+			"Mode concurrent (400 trials quick, 8000 thorough): 2-4 pre-filled targets (3 roots x 60-500 leaves, identical paths), Remove(X) or Reset(X) fired in the middle of a lead subscriber's initial walk or between its target check and its registration (bounded holds at schedule points), while its peer is stalled on its first response (Send gate), while the feed consumer is slow right after a Reset announcement, or at a seeded moment; by seed no periodic refresh (30%), a goroutine looping UpdateMetadata (40%) or that and one looping UpdateSize (30%) with seeded pauses during the whole trial, X's stream reporting Sync/Connect/ConnectError and a few last updates right before the operation; single-target X STREAM (2-3 paths), '*' STREAM, '*' ONCE and other-target STREAM subscribers attached before / while / after; each judged trial is distinct by its sequence of schedule points reached. " +
 			"A history is counted as distinct non-trivial when it contains a Reset of a target that held data leaves and non-initial metadata AND a Remove of a target that held data leaves, each while another target held data leaves; hashed by its operation list.",
 		Assumptions: []string{
 			"all cache calls are made by one goroutine (the collector's discipline: one writer per target); subscribers run concurrently but only read",
